@@ -32,7 +32,7 @@ def random_weak_order(rng, n):
 def encode_ranks(rng, dense, how=None):
     """encode a dense rank vector as a list of Python numbers inducing the same weak order"""
     n = len(dense)
-    how = how or rng.choice(["int", "float", "mixed", "neg", "big", "gap", "bool", "frac"])
+    how = how or rng.choice(["int", "float", "mixed", "neg", "big", "gap", "bool", "frac", "huge"])
     levels = sorted(set(dense))
     if how == "bool" and len(levels) > 2:
         how = "int"
@@ -54,6 +54,15 @@ def encode_ranks(rng, dense, how=None):
             if prev is not None and not (prev < vals[l]):
                 vals[l] = base + l if isinstance(prev, int) and prev < base + l else prev + 8192
             prev = vals[l]
+    elif how == "huge":
+        # ints beyond the float range, next to floats and bools: still exactly ordered by Python
+        vals, pool = {}, [False, True, 2.5, 1e300, 10 ** 400, 10 ** 400 + 1, 2 ** 1024, 2 ** 2000]
+        pool = sorted(pool, key=lambda v: v)[: ]
+        pick = sorted(rng.sample(range(len(pool)), min(len(levels), len(pool))))
+        if len(levels) > len(pool):
+            pick = list(range(len(pool)))
+        for k, l in enumerate(levels):
+            vals[l] = pool[pick[k]] if k < len(pick) else 2 ** 2000 + (k - len(pick) + 1)
     elif how == "gap":
         acc, vals = rng.randint(-5, 5), {}
         for l in levels:
